@@ -995,6 +995,12 @@ def oracle_c07(case, ir):
                     "sizes": sizes}
         if not res.get("prep_ok", True):
             return {"what": f"round {r}: prep_comparison_sample did not restore the selection order"}
+        flagged = [i for i, f in enumerate(res.get("flags", [])) if f]
+        if "flags" in res and flagged != sorted(want):
+            return {"what": f"round {r}: the cards recorded as sampled (`sampled` flags, read by find_sample_size) are "
+                            f"{flagged}; the union of the per-contest prefixes is {sorted(want)}"
+                            + (" -- after a request that raised IndexError and was then corrected" if rd.get("failed_first") else ""),
+                    "sizes": sizes}
         for ci, ((mine, first), nc) in enumerate(zip(pf, sizes)):
             if nc >= 1:
                 t = str(int(cards[first[-1]]["num"]))
